@@ -596,13 +596,45 @@ func ruleSubOwnChanges(c *eng.Ctx) {
 		})
 		return found
 	}
+	runPos0 := token.NoPos
+	for _, cs := range eng.Calls(info, lit.Body) {
+		if strings.HasSuffix(cs.Name, "planner.(*Planner).RunSelection") || strings.HasSuffix(cs.Name, "planner.(*Planner).RunRequest") {
+			runPos0 = cs.Call.Pos()
+		}
+	}
 	for i, s := range sends {
 		spt, ok := flow.PointOf(s)
 		if !ok {
 			continue
 		}
 		// go/cfg evaluates the comm clauses of a select before branching: take the point of the clause body
-		unguarded := flow.ReachesWithout(spt, hasCmp, nil)
+		// paths on which the lookup of the subscribed collection failed are not at issue here (the
+		// failure is reported to the subscriber): conditions on an error that lie before the selection
+		// is run are taken on their "no error" edge
+		runPos := token.NoPos
+		for _, cs := range eng.Calls(info, lit.Body) {
+			if strings.HasSuffix(cs.Name, "planner.(*Planner).RunSelection") || strings.HasSuffix(cs.Name, "planner.(*Planner).RunRequest") {
+				runPos = cs.Call.Pos()
+			}
+		}
+		unguarded := flow.ReachesWithout(spt, hasCmp, func(cond ast.Expr, taken bool) bool {
+			if runPos.IsValid() && cond.Pos() < runPos && !hasCmp(cond) {
+				switch eng.EvalBool(info, cond, func(e ast.Expr) eng.Tri {
+					if be, ok := ast.Unparen(e).(*ast.BinaryExpr); ok && (be.Op == token.EQL || be.Op == token.NEQ) {
+						if tv, ok := info.Types[be.Y]; ok && tv.IsNil() && eng.IsErrorType(info.TypeOf(be.X)) {
+							return eng.TriOf(be.Op == token.EQL)
+						}
+					}
+					return eng.Unknown
+				}) {
+				case eng.True:
+					return taken
+				case eng.False:
+					return !taken
+				}
+			}
+			return true
+		})
 		reached := flow.Forward(flow.Entry(), true, eng.Walk{
 			Visit: func(p eng.Point, _ ast.Node) eng.Action {
 				if p == spt {
@@ -614,7 +646,7 @@ func ruleSubOwnChanges(c *eng.Ctx) {
 				// inside the condition that holds the comparison, the lookup of the subscribed
 				// collection is taken to have succeeded (`err == nil && evt.CollectionID != …`): a
 				// failed lookup is reported to the subscriber by the code that follows
-				inCmp := hasCmp(cond)
+				inCmp := hasCmp(cond) || (runPos0.IsValid() && cond.Pos() < runPos0)
 				switch eng.EvalBool(info, cond, func(e ast.Expr) eng.Tri {
 					if t := cmpTri(e); t != eng.Unknown {
 						return t
